@@ -110,6 +110,42 @@ def forks(rng, n, phases, byz=0.0, restart="none"):
     return {"n": n, "nodes": 1, "self": [rng.randrange(-1, n)], "ops": t.ops}
 
 
+def fail_scenario(rng, n, byz=0.0, restart=False):
+    """Forks in which one block of the side branch fails when executed (["BAD", id]): the
+    reorganisation is abandoned after a partial rollforward; and invalid children of the best block."""
+    t = Tree()
+    main = [0]
+    ops = t.ops
+
+    def mk(parent, bp, bad=False):
+        conf = byz_conf(rng, t.blocks[parent][1] + 1) if rng.random() < byz else None
+        i = t.mk(parent, bp, conf, track=not bad)
+        if bad:
+            ops.append(["BAD", i])
+        ops.append(["D", 0, i])
+        if restart and rng.random() < 0.25:
+            ops.append(["S", 0] if rng.random() < 0.7 else ["R", 0])
+        return i
+    for _ in range(rng.randrange(3, 6)):
+        prods = rng.sample(range(n), rng.randrange(1, n + 1))
+        for _ in range(rng.randrange(1, 2 * n + 3)):
+            if rng.random() < 0.1:
+                mk(main[-1], rng.choice(prods), bad=True)      # invalid child of the best block
+            main.append(mk(main[-1], rng.choice(prods)))
+        if len(main) > 2:
+            d = rng.randrange(1, min(len(main) - 1, 2 * n + 2) + 1)
+            g2 = rng.sample(range(n), rng.randrange(1, n + 1))
+            root_idx = len(main) - 1 - d
+            br = [main[root_idx]]
+            tot = d + rng.randrange(1, 4)
+            badpos = rng.randrange(1, tot + 1) if rng.random() < 0.7 else None
+            for k in range(1, tot + 1):
+                br.append(mk(br[-1], rng.choice(g2), bad=(k == badpos)))
+            if badpos is None and len(br) - 1 > d:
+                main = main[:root_idx] + br
+    return {"n": n, "nodes": 1, "self": [rng.randrange(-1, n)], "fail": True, "ops": ops}
+
+
 def gc_scenario(rng, n, length):
     """Linear chain with libStatus.gc(bps) called directly with producer subsets."""
     t = Tree()
@@ -426,8 +462,47 @@ def generate_election(rng, quick):
     return out
 
 
+def chain_fail_scenario(rng):
+    """Chain-side engine with blocks that fail when executed (["BX", id, parent]): an invalid
+    child of the best block, and a side branch containing an invalid block that outgrows the main
+    chain (the reorganisation is abandoned after a partial rollforward, again at every further
+    block of that branch)."""
+    ops = []
+    blocks = {0: (None, 0)}
+    nid = [1]
+    main = [0]
+
+    def mk(parent, bad=False):
+        i = nid[0]
+        nid[0] += 1
+        blocks[i] = (parent, blocks[parent][1] + 1)
+        ops.append(["BX" if bad else "B", i, parent])
+        ops.append(["D", i])
+        return i
+    for _ in range(rng.randrange(2, 4)):
+        for _ in range(rng.randrange(2, 6)):
+            if rng.random() < 0.2:
+                mk(main[-1], bad=True)
+            main.append(mk(main[-1]))
+        if rng.random() < 0.5:
+            lib = rng.randrange(0, max(1, len(main) - 3))
+            ops.append(["L", lib])
+        else:
+            lib = 0
+        # (the LIB only matters as a veto here; keep the fork point at or above it)
+        lo = max(lib, len(main) - 6, 0)
+        rno = rng.randrange(lo, len(main) - 1) if len(main) - 1 > lo else lo
+        tip = main[rno]
+        need = len(main) - 1 - rno + rng.randrange(1, 4)
+        badpos = rng.randrange(1, need + 1)
+        for k in range(1, need + 1):
+            tip = mk(tip, bad=(k == badpos))
+    return {"chain": True, "fail": True, "ops": ops}
+
+
 def generate_chain(rng, quick):
-    return [chain_scenario(rng, rng.randrange(2, 6)) for _ in range(12 if quick else 150)]
+    return ([chain_scenario(rng, rng.randrange(2, 6)) for _ in range(12 if quick else 150)] +
+            [chain_fail_scenario(rng) for _ in range(6 if quick else 60)])
 
 
 def exhaustive_linear(n, length, restart=True):
@@ -467,6 +542,8 @@ def generate(rng, quick):
     for _ in range(8 * k):
         n = rng.choice([3, 4, 4, 5, 6, 7])
         sc.append(forks(rng, n, rng.randrange(2, 6), byz=0.3, restart=rng.choice(["none", "mixed", "shadow"])))
+    for _ in range(8 * k):
+        sc.append(fail_scenario(rng, rng.choice([1, 2, 3, 4, 4, 5]), byz=rng.choice([0.0, 0.0, 0.3]), restart=rng.random() < 0.5))
     for _ in range(3 * k):
         sc.append(gc_scenario(rng, rng.choice([3, 4, 5, 7]), rng.randrange(10, 30)))
     for _ in range(4 * k):
